@@ -585,6 +585,22 @@ def sc_argmax(n, c, s, ax):
         raise _Done()
 
 
+def sc_reduce_axis0_widening(kind, n, m, c, c2, s):
+    """reductions over axis 0 of an (n, m) array whose intermediate dtype is WIDER than the input's: sum of int32 / int8 (int64
+    accumulator), mean of float32 ({n: int64, total: float64}), var of float32 -- with skinny chunks the reduced chunk is as
+    large as the input chunk, so the projected memory of the first partial reduce depends on the intermediate dtype"""
+    _start()
+    sx.assume(c <= n)
+    sx.assume(c2 <= m)
+    k = sx.conc(kind)
+    xp = _xp()
+    x = G.stub_array("x", (n, m), (c, c2), dtype=["int32", "float32", "int8", "float32"][k])
+    out = [xp.sum, xp.mean, xp.sum, xp.var][k](x, axis=0, split_every=s)
+    _declared_ok(out, (m,))
+    if MODE == "route":
+        raise _Done()
+
+
 def sc_index_stride_full(n, c, st, p):
     """x[::st] over the whole array: selection op + merge_chunks op (fused by the default optimizer)"""
     _start()
@@ -604,6 +620,7 @@ EXTRA_SCENARIOS = {
     "linalg.qr": (sc_qr, lambda N: [("n", 1, N + 2), ("m", 1, 3), ("c", 1, N + 2)]),
     "matmul": (sc_matmul, lambda N: [("n", 1, 4 if N <= 6 else 6), ("k", 1, 3), ("m", 1, 2), ("c", 1, 4 if N <= 6 else 6), ("ck", 1, 3)]),
     "argmax": (sc_argmax, lambda N: [("n", 1, N), ("c", 1, N), ("s", 2, 3), ("ax", 0, 1)]),
+    "reduce[axis0-2d,widening]": (sc_reduce_axis0_widening, lambda N: [("kind", 0, 3), ("n", 1, 4), ("m", 1, N), ("c", 1, 2), ("c2", 1, N), ("s", 2, 3)]),
     "tensordot[2-axes]": (sc_tensordot, lambda N: [("n", 1, 4), ("c", 1, 4), ("order", 0, 1)]),
 }
 
